@@ -142,6 +142,49 @@ def param_programs():
         return m
     yield ("params/numeric-literals-on-primitives", numeric_literals_prim)
 
+    # number-like literal text on EVERY parameter of every ideal primitive, incl. those VLSIR names differently
+    def numeric_literals_every_primitive():
+        import dataclasses
+        m = h.Module(name="PLitAll")
+        texts = ["100", "1e-9", "0.5", "2*k", "-3", "1_000", " 7 ", "0x10", "1e", "inf"]
+        k = 0
+        for prim in (h.R, h.C, h.L, h.Vdc, h.Vpulse, h.Vsin, h.Idc, h.Vcvs, h.Vccs, h.Cccs, h.Ccvs):
+            fields = [f.name for f in dataclasses.fields(prim.Params)]
+            for rot in range(2):
+                vals = {}
+                for j, f in enumerate(fields):
+                    vals[f] = h.Literal(texts[(j + k + rot * 3) % len(texts)])
+                try:
+                    call = prim(**vals)
+                except Exception:
+                    continue
+                conns = {p_.name: m.add(h.Signal(name=f"s{k}_{p_.name}")) for p_ in prim.port_list}
+                m.add(call(**conns), name=f"i{k}")
+                k += 1
+        assert k >= 10
+        return m
+    yield ("params/numeric-literals-on-every-primitive", numeric_literals_every_primitive)
+
+    # generated modules whose names carry parameter text with dots: relative paths, doubled / leading / trailing dots
+    def dotted_generator_names():
+        @h.paramclass
+        class DutP:
+            models = h.Param(dtype=str, desc="model file")
+            corner = h.Param(dtype=str, desc="corner", default="tt")
+
+        @h.generator
+        def Dut(p: DutP) -> h.Module:
+            m = h.Module()
+            m.a = h.Port()
+            m.r = h.R(r=1)(p=m.a, n=m.a)
+            return m
+        top = h.Module(name="DottedTop")
+        top.s = h.Signal()
+        for k, text in enumerate(("../models/nmos.lib", "a..b", ".hidden", "trailing.", "1.5", "...", "x/./y")):
+            top.add(Dut(models=text)(a=top.s), name=f"d{k}")
+        return top
+    yield ("params/dotted-generator-names", dotted_generator_names)
+
     # signals and ports called like attributes of the Module object itself (only add() can give such names)
     def attribute_like_names():
         c = h.Module(name="AttrNames")
